@@ -8,7 +8,7 @@
     10 ln_in.md  -> a.md (symlink to a file inside)     11 ln_out.md -> a file outside the tree ("OUT")
     12 ln_dangling.md -> nothing                        ln_dir -> sub (symlink to a directory)
    Settings: extinc (extend-include *.txt), excl (exclude = ["drafts/"], replacing the defaults, which contain
-     node_modules/), extexcl (extend-exclude deep/), force (force-exclude), limit (files-max-size = L, else 0 = none),
+     node_modules/), extexcl (extend-exclude: none / deep/ / the path pattern sub/deep/), force (force-exclude), limit (files-max-size = L, else 0 = none),
      toolign (.flowmarkignore present at the root).
    Arguments: sequences over Args.  The result is modelled as the set of identities of the resolved files
    (a symlink resolves to its target).
@@ -39,14 +39,18 @@ U == [i \in 1..13 |->
          [] i = 13 -> [name |-> "f.txt", dir |-> <<"sub">>, ext |-> "txt", size |-> "small", link |-> "none", to |-> 0]]
 Ids == 1..13
 Args == {".", "sub", "ln_dir", "a.md", "./a.md", "node_modules/x.md", "big.md", "ign.md", "drafts/e.md", "*.md", "**/*.md", "sub/*"}
-Settings == [extinc : BOOLEAN, excl : BOOLEAN, extexcl : BOOLEAN, force : BOOLEAN, limit : BOOLEAN, toolign : BOOLEAN]
+Settings == [extinc : BOOLEAN, excl : BOOLEAN, extexcl : {"none", "base", "path"}, force : BOOLEAN, limit : BOOLEAN, toolign : BOOLEAN]
 
 Target(i) == IF U[i].link = "none" THEN i ELSE U[i].to          \* identity after Path.resolve()
 IsPrefix(a, b) == Len(a) <= Len(b) /\ SubSeq(b, 1, Len(a)) = a
 IncludeOK(i) == U[i].ext = "md" \/ (st.extinc /\ U[i].ext = "txt")
-ExclDirs == (IF st.excl THEN {"drafts"} ELSE {"node_modules"}) \cup (IF st.extexcl THEN {"deep"} ELSE {})
+\* extexcl = "base": extend-exclude deep/ (a directory name, excluded wherever it occurs);
+\* extexcl = "path": extend-exclude sub/deep/ (a path pattern: matched against the path relative to the ROOT of the walk or glob,
+\*                   so the same directory is excluded when reached from "." and not excluded when reached from "sub")
+ExclDirs == (IF st.excl THEN {"drafts"} ELSE {"node_modules"}) \cup (IF st.extexcl = "base" THEN {"deep"} ELSE {})
 \* some directory component strictly below the walk root `base` is excluded
-InExcl(i, base) == \E j \in (Len(base) + 1)..Len(U[i].dir) : U[i].dir[j] \in ExclDirs
+InExcl(i, base) == \/ \E j \in (Len(base) + 1)..Len(U[i].dir) : U[i].dir[j] \in ExclDirs
+                   \/ (st.extexcl = "path" /\ IsPrefix(<<"sub", "deep">>, SubSeq(U[i].dir, Len(base) + 1, Len(U[i].dir))))
 ToolIgn(i) == st.toolign /\ U[i].name = "ign.md"
 TooBig(i) == st.limit /\ U[i].size = "big"
 Filters(i, base) == IncludeOK(i) /\ ~InExcl(i, base) /\ ~ToolIgn(i) /\ ~TooBig(i)
